@@ -28,7 +28,7 @@ def budget(tier):
 def strategy(tier):
     @st.composite
     def s(draw):
-        c, n, tp = draw(gens.cfg(max_dim=208, min_dim=64, frames=(4, 24 if tier == "thorough" else 14), allow_twopass=False, allow_rc=False, lps=(2, 3, 4, 8, 16),
+        c, n, tp = draw(gens.cfg(max_dim=208, min_dim=64, frames=(4, 24 if tier == "thorough" else 14), allow_twopass=False, allow_rc=False, exclude=("AQ1", "GRAIN", "SRES", "2PASS"), lps=(2, 3, 4, 8, 16),
                                  presets=(8, 8, 7, 6, 5), tools_p=1, allow_superres=False, allow_grain=False))
         cnt = draw(gens.content(kinds=(2, 3, 5, 7)))
         if draw(st.integers(0, 4)) == 0:
